@@ -251,6 +251,15 @@ theorem writeKey_one (a : SetArg) (k : Bytes) (kvs : List (Bytes × JV)) : AtMos
       obtain ⟨j, h1, h2⟩ := kvInsert_set k v kvs c hl
       rw [h2]; exact OneChange.putO j k v kvs c h1 trivial
 
+/-- DelOne that does not stop at a name (the delOneAbsent deviation off): the member is absent, nothing is deleted -/
+theorem oneKey_false (dev : Dev) (a : SetArg) (k : Bytes) (kvs : List (Bytes × JV)) (h : oneKey dev true a k kvs = false) :
+    writeKey a k kvs = kvs := by
+  simp only [oneKey, Bool.true_and, Bool.not_eq_false', Bool.and_eq_true, Bool.not_eq_true', Option.isNone_iff_eq_none] at h
+  obtain ⟨⟨h1, _⟩, h3⟩ := h
+  cases a with
+  | val v => simp [SetArg.isDel] at h1
+  | del => simp only [writeKey]; exact kvErase_absent k kvs h3
+
 theorem setLastUnion_inv (gen : Bool) (dev : Dev) (a : SetArg) : ∀ (ms : List Member) (d : JV),
     Inv QAny d (setLastUnion gen dev true a ms d)
   | [], d => inv_same QAny d .go
@@ -259,8 +268,13 @@ theorem setLastUnion_inv (gen : Bool) (dev : Dev) (a : SetArg) : ∀ (ms : List 
     | key k =>
       cases d with
       | obj kvs =>
-        simp only [setLastUnion, if_true]
-        exact ⟨fun h => (by cases h), writeKey_one a k kvs⟩
+        simp only [setLastUnion]
+        cases hk : oneKey dev true a k kvs with
+        | true => simp only [if_true]; exact ⟨fun h => (by cases h), writeKey_one a k kvs⟩
+        | false =>
+          simp only [Bool.false_eq_true, if_false]
+          rw [oneKey_false dev a k kvs hk]
+          exact setLastUnion_inv gen dev a ms _
       | _ => simp only [setLastUnion]; exact setLastUnion_inv gen dev a ms _
     | idx i =>
       cases d with
@@ -283,7 +297,14 @@ theorem setLast_inv (gen : Bool) (dev : Dev) (a : SetArg) (f : Frag) (d : JV) : 
   cases f with
   | child k =>
     cases d with
-    | obj kvs => simp only [setLast, stopIf, if_true]; exact ⟨fun h => (by cases h), writeKey_one a k kvs⟩
+    | obj kvs =>
+      simp only [setLast, stopIf]
+      cases hk : oneKey dev true a k kvs with
+      | true => simp only [if_true]; exact ⟨fun h => (by cases h), writeKey_one a k kvs⟩
+      | false =>
+        simp only [Bool.false_eq_true, if_false]
+        rw [oneKey_false dev a k kvs hk]
+        exact inv_same QAny _ .go
     | _ => exact inv_same QAny _ .go
   | nth i =>
     cases d with
@@ -353,7 +374,7 @@ theorem chain_obj_nogo (gen : Bool) (dev : Dev) (v : JV) : ∀ (rest : List Frag
     (setF gen dev true (.val v) (.child k :: rest) fl (.obj [])).st ≠ .go
   | [], k, fl => by
     rw [setF_single_eq _ _ _ _ _ rfl]
-    simp [setLast, stopIf]
+    simp [setLast, stopIf, oneKey, SetArg.isDel]
   | g :: r, k, fl => by
     rw [setF_child_eq]
     simp only [lookup, setCreate, List.head?_cons]
